@@ -98,7 +98,24 @@ def detection_table():
     return '\n'.join(rows)
 
 
+def sync_fixed_lines():
+    """known_findings.json: `fixed_lines` is derived from the fixed entries (one literal line per property and finding)."""
+    p = os.path.join(V, 'known_findings.json')
+    b = json.load(open(p))
+    lines = []
+    for e in b['findings']:
+        ps = e.get('properties') or e.get('property') or []
+        ps = ps if isinstance(ps, list) else [ps]
+        if e.get('status') == 'fixed':
+            for q in ps:
+                lines.append('fixed: property=%s %s %s [%s]' % (q, e.get('commit', '?'), e.get('what', '').replace('\n', ' ')[:300], e['id']))
+    if b.get('fixed_lines') != lines:
+        b['fixed_lines'] = lines
+        json.dump(b, open(p, 'w'), indent=1)
+
+
 def main():
+    sync_fixed_lines()
     path = os.path.join(V, 'DESIGN.md')
     s = open(path).read()
     gens = {'status': status_table, 'fixed': lambda: findings_table('fixed'), 'open': lambda: findings_table('open'), 'detection': detection_table}
